@@ -12,7 +12,7 @@ from engine.codec import Codec, read_roles
 from engine.expr import Ex, norm, show, walk, alts
 from engine.intervals import dominating_facts, Intervals
 from engine.mir import AnchorLost, callee_matches
-from engine.query import aggregates, calls_matching, where, find_switch_on, ret_alts
+from engine.query import aggregates, calls_matching, where, find_switch_on, ret_alts, enum_variants
 from rules.C01 import codec_rules
 from rules.shared_codec import tokens
 from rules.shared_zip64 import pair_rules, thr_rules
@@ -102,6 +102,15 @@ def central_rules(ctx, facts, rep):
     ok &= rep.check(good, rule, "data-start-formula", where(fc, st[0][1]["span"]),
                     "data_start = header_start + %d + local name length + local extra length" % fixed,
                     "data_start is computed as %s; the fixed local header is %d bytes and both local lengths must be added" % (show(v), fixed))
+    # ... added in 64 bits: the two 16-bit lengths may sum to more than 65535 (a 65534-byte alignment pad plus any name)
+    narrow = []
+    for bi, si, s in fc.stmts():
+        if s["k"] == "assign" and s["rv"]["k"] == "binop" and s["rv"]["op"] in ("Add", "AddWithOverflow", "AddUnchecked"):
+            tys = [(fc.locals[o["place"]["l"]].get("ty") if o["k"] != "const" and not o["place"]["p"] else o.get("ty")) for o in (s["rv"]["a"], s["rv"]["b"])]
+            if any(t_ in ("u16", "u8", "u32") for t_ in tys):
+                narrow.append(tys)
+    ok &= rep.check(not narrow, rule, "lengths-widened-before-add", where(fc, st[0][1]["span"]), "no 16/32-bit addition on the way to data_start",
+                    "find_content adds local-header lengths in %s arithmetic: name + extra >= 65536 wraps (release) or panics (debug)" % narrow[:1])
     # the skip between signature and name length
     sk = [(bi, t) for bi, t in fc.calls() if callee_matches(t, r"io::Seek::seek$")]
     cur = [norm(ex.operand(t["args"][1], (bi, None))) for bi, t in sk]
@@ -230,10 +239,27 @@ def search_rules(ctx, facts, rep):
             v = norm(ex.rvalue(s["rv"], (bi, si)))
             if v[0] == "bin" and v[1] == "Sub" and v[3][0] in ("named", "const") and v[3][2] == 22 and any(x[0] == "call" and x[1].endswith("Seek::seek") for x in walk(v[2])):
                 good = True
+    # iterator form: `for pos in (lower..=file_length - 22).rev()` -- start, inclusive bound and step are those of the reversed
+    # inclusive range by construction; its endpoints carry the obligations
+    rng = calls_matching(f, r"RangeInclusive::<Idx>::new$")
+    revd = calls_matching(f, r"Iterator::rev$")
+    it_form = False
+    if rng and revd and len(rng) == 1:
+        lo = norm(ex.operand(rng[0][1]["args"][0], (rng[0][0], None)))
+        hi = norm(ex.operand(rng[0][1]["args"][1], (rng[0][0], None)))
+        rv_ = norm(ex.operand(revd[0][1]["args"][0], (revd[0][0], None)))
+        nx = calls_matching(f, r"Iterator::next$")
+        it_form = hi[0] == "bin" and hi[1] == "Sub" and hi[3][0] in ("named", "const") and hi[3][2] == 22 and \
+            any(x[0] == "call" and x[1].endswith("Seek::seek") for x in walk(hi[2])) and \
+            any(x[0] == "call" and x[1].endswith("saturating_sub") for x in walk(lo)) and \
+            any(x[0] == "call" and x[1].endswith("RangeInclusive::<Idx>::new") for x in walk(rv_)) and \
+            len(nx) == 1 and any(x[0] == "call" and x[1].endswith("Iterator::rev") for x in walk(norm(ex.operand(nx[0][1]["args"][0], (nx[0][0], None)))))
+    good = good or it_form
     ok &= rep.check(good, rule, "start", where(f, f.span), "search starts at file_length - 22", "search does not start at file_length - 22")
     # loop condition pos >= bound, step -1
     sw = find_switch_on(f, lambda d: d[0] == "bin" and d[1] in ("Ge", "Le", "Lt", "Gt") and any(x[0] == "call" and x[1].endswith("saturating_sub") for x in walk(d)))
     good = bool(sw) and sw[0][2][1] == "Ge" and any(x[0] == "call" and x[1].endswith("saturating_sub") for x in walk(sw[0][2][3]))
+    good = good or it_form
     ok &= rep.check(good, rule, "inclusive-bound", where(f, f.span), "loop runs while pos >= lower bound (inclusive)", "loop bound comparison changed: %s" % ([show(s[2]) for s in sw]))
     cs = calls_matching(f, r"checked_sub$")
     good = bool(cs) and norm(ex.operand(cs[0][1]["args"][1], (cs[0][0], None))) == ("const", "u64", 1)
@@ -245,6 +271,7 @@ def search_rules(ctx, facts, rep):
                 v = norm(ex.rvalue(s["rv"], (bi, si)))
                 if v[0] == "bin" and v[1] == "Sub" and v[3] == ("const", "u64", 1):
                     good = True
+    good = good or it_form
     ok &= rep.check(good, rule, "step", where(f, f.span), "pos decreases by exactly 1", "search step is not 1")
     return ok
 
@@ -300,6 +327,65 @@ def perentry_rules(facts, rep):
     return rep.check(not bad, rule, "open-does-not-touch-entries", where(nw, nw.span),
                      "ZipArchive::new reaches neither the decoder construction nor the per-entry open path (%d functions reachable)" % len(reach),
                      "ZipArchive::new reaches %s: an unsupported or damaged entry would fail the whole archive" % bad)
+
+
+FIELD_WRITERS = {
+    # field of ZipFileData -> the functions that may assign it after the record was constructed (everything else reports what the
+    # header said): ZIP64 / AE-x extra fields replace sizes, offset and method; the writer's entry-closing function patches crc/sizes;
+    # the archive offset is added to the header offset by the central parser
+    "last_modified_time": set(), "file_name": set(), "file_name_raw": set(), "file_comment": set(), "external_attributes": set(), "extra_field": set(),
+    "system": set(), "version_made_by": set(), "encrypted": set(), "using_data_descriptor": set(), "central_header_start": set(), "large_file": {"parse_extra_field"},
+    "crc32": {"finish_file"}, "compressed_size": {"parse_extra_field", "finish_file"}, "uncompressed_size": {"parse_extra_field", "finish_file"},
+    "compression_method": {"parse_extra_field"}, "aes_mode": {"parse_extra_field"}, "header_start": {"central_header_to_zip_file_inner", "parse_extra_field"},
+}
+
+
+def fieldwriters_rules(facts, rep, rule="C03-FIELDWRITERS"):
+    """who may assign an entry's metadata after it was parsed: a second source for a value (a timestamp taken from an Info-ZIP extra
+    field when the DOS words look wrong, a name 'repaired' after decoding) makes the entry report -- and every re-writer store --
+    something else than the record holds"""
+    from engine.query import field_assignments
+    ok = True
+    n = 0
+    for fld, allowed in sorted(FIELD_WRITERS.items()):
+        who = sorted({g.path.split("::")[-1] for g, bi, si, s in field_assignments(facts, fld, r"ZipFileData$")})
+        extra = [w for w in who if w not in allowed]
+        n += 1
+        ok &= rep.check(not extra, rule, "writers:%s" % fld, "", "assigned after construction only in %s" % (sorted(allowed) or "no function"),
+                        "ZipFileData.%s is also assigned in %s: the value an entry reports is no longer the one its record holds" % (fld, extra))
+    rep.floor(rule, 15)
+    return ok
+
+
+def dosmode_rules(facts, rep, rule="C03-DOSMODE"):
+    """unix_mode() for entries made by MS-DOS: a table over the two attribute bits the crate interprets.  Reference = what the pinned
+    tree computes for all four combinations (directory bit 0x10 chooses S_IFDIR|0775 over S_IFREG|0664, read-only bit 0x01 then strips
+    the write bits of whichever was chosen); decided on paths, so `let mut m = ..; if ro { m &= 0o555 }` and an if-expression agree"""
+    from engine.paths import paths as _paths, outcome as _outcome
+    f = facts.one(r"^types::ZipFileData::unix_mode$")
+    sysv = {v: k for k, v in enum_variants(facts, "types::System").items()}
+    dos = sysv.get("Dos")
+    want = {(0, 0): 0o100664, (0, 1): 0o100664 & 0o555, (1, 0): 0o040775, (1, 1): 0o040775 & 0o555}
+    got = {}
+    for p in _paths(f):
+        d = dict()
+        sysd = None
+        for a_, v_ in p["decisions"]:
+            if a_ == "discr(self.system)":
+                sysd = v_
+            m = re.match(r"^BitAnd\(self\.external_attributes, (\d+)\)$", a_)
+            if m:
+                d[int(m.group(1))] = 0 if v_ == 0 else 1
+        if sysd != dos:
+            continue
+        o = _outcome(p)
+        val = o[1][2] if o[0] == "Some" and o[1] is not None and o[1][0] == "const" else None
+        got.setdefault((d.get(16), d.get(1)), set()).add(val)
+    bad = {k: (sorted(x if x is not None else -1 for x in got.get(k, {None})), want[k]) for k in want if got.get(k) != {want[k]}}
+    extra = [k for k in got if k not in want]
+    return rep.check(not bad and not extra, rule, "dos-attribute-table", where(f, f.span), "(directory, read-only) -> mode: %s" % {k: oct(v) for k, v in want.items()},
+                     "unix_mode() of MS-DOS entries differs from the attribute table at %s (rows decided on other atoms: %s)" % (
+                         {k: ([oct(x) for x in v[0]], oct(v[1])) for k, v in bad.items()}, extra))
 
 
 def sentinel_rules(facts, rep):
@@ -410,6 +496,8 @@ def run(ctx, rep):
     names_rules(facts, rep)
     perentry_rules(facts, rep)
     sentinel_rules(facts, rep)
+    fieldwriters_rules(facts, rep)
+    dosmode_rules(facts, rep)
     from rules.C19 import table_rules as cp437_table_rules
     cp437_table_rules(facts, rep)      # reported as C03/C19-TABLE
     from rules.C10 import extra_tolerance_rules
